@@ -396,6 +396,9 @@ def enumerate_cases(tier):
             idx += 1
             yield {"kind": "fake", "script": [[k, j, False] for j, k in enumerate(combo)], "cfg": idx % len(CONFIGS),
                    "all_cfg": n <= (3 if tier == "quick" else 4)}
+    # generated subscription methods (sync config is refused by design): yield validated models of each next frame
+    for otel in (False, True):
+        yield {"kind": "generated", "_isolate": True, "otel": otel}
     # the statement's last sentence: the unmodified client against a real websockets server
     # (while KF-C13-1 is open this lives in the pinned tier only: replays/C13/kf-c13-1.json)
     from vf import findings, gen_common
@@ -431,7 +434,109 @@ def budget(tier):
     return {"examples": 1600 if tier == "quick" else 20000, "timeout": 120.0}
 
 
+GEN_SDL = """
+type Query { a: Int }
+type Subscription { counter(step: Int): Tick!  feed: [Item!] }
+type Tick { value: Int! at: String }
+interface Item { id: ID! }
+type Post implements Item { id: ID! title: String }
+type Comment implements Item { id: ID! text: String }
+"""
+GEN_QUERIES = """
+subscription Counter($step: Int) { counter(step: $step) { value at } }
+subscription Feed { feed { id ... on Post { title } ... on Comment { text } } }
+"""
+
+
+def run_generated(case, scratch):
+    """generated subscription methods on top of the scripted connection"""
+    import importlib
+
+    import pydantic
+
+    from vf import e2e
+
+    pcase = {"sdl": GEN_SDL, "queries": GEN_QUERIES, "config": {"opentelemetry_client": case["otel"]}}
+    gen = e2e.generate(pcase, scratch)
+    if not gen["ok"]:
+        return {"harness_error": "fixed C13 project does not generate: " + gen["msg"]}
+    pkg = e2e.import_package(pcase, scratch)
+    modname = "async_base_client_open_telemetry" if case["otel"] else "async_base_client"
+    m = importlib.import_module(f"{pkg.__name__}.{modname}")
+    ex = importlib.import_module(f"{pkg.__name__}.exceptions")
+    failures, nts, units = [], [], 0
+    payloads = {
+        "counter": [{"counter": {"value": 1, "at": None}}, {"counter": {"value": 2, "at": "x"}}],
+        "feed": [{"feed": [{"__typename": "Post", "id": "1", "title": "t"}, {"__typename": "Comment", "id": "2", "text": None}]}, {"feed": None}],
+    }
+    scripts = [
+        ("counter", ["ack", "next", "ping", "next", "complete"]), ("feed", ["ack", "next", "next", "complete"]),
+        ("counter", ["ack", "next", "error"]), ("feed", ["ack", "ping", "nonjson"]), ("counter", ["next"]),
+        ("counter", ["ack", "badnext"]),
+    ]
+    for tracer in ([None] if not case["otel"] else [None, "noop", "rec"]):
+        for opname, kinds in scripts:
+            units += 1
+            frames, nexts = [], iter(payloads[opname])
+            expected = []
+            for k in kinds:
+                if k == "next":
+                    d = next(nexts)
+                    expected.append(d)
+                    frames.append(json.dumps({"type": "next", "id": "x", "payload": {"data": d}}))
+                elif k == "badnext":
+                    frames.append(json.dumps({"type": "next", "id": "x", "payload": {"data": {"counter": {"value": None}}}}))
+                else:
+                    frames.append(frame_text(k, 0))
+            fake = FakeWS(frames, [False] * len(frames))
+
+            @contextlib.asynccontextmanager
+            async def fake_connect(url, **kwargs):
+                yield fake
+
+            kw = {"tracer": bc.tracer_of(tracer)} if tracer else {}
+            client = e2e.client_class(pkg, pcase)(url="http://x/", http_client=_http(), ws_url=WS_URL, **kw)
+            orig = m.ws_connect
+            m.ws_connect = fake_connect
+            got, outcome = [], "end"
+
+            async def main():
+                method = getattr(client, opname)
+                async for item in (method(step=2) if opname == "counter" else method()):
+                    got.append(item)
+
+            try:
+                asyncio.run(main())
+            except BaseException as exc:  # noqa: BLE001
+                outcome = type(exc).__name__
+            finally:
+                m.ws_connect = orig
+            label = f"{opname} {kinds} tracer={tracer}"
+            want_outcome = "end"
+            if "error" in kinds:
+                want_outcome = "GraphQLClientGraphQLMultiError"
+            elif "nonjson" in kinds or kinds[0] != "ack":
+                want_outcome = "GraphQLClientInvalidMessageFormat"
+            elif "badnext" in kinds:
+                want_outcome = "ValidationError"
+            if outcome != want_outcome:
+                failures.append({"clause": "generated_outcome", "sig": want_outcome, "msg": f"{label}: outcome {outcome}, expected {want_outcome}"})
+            if kinds[0] == "ack":
+                dumped = [g.model_dump(mode="json", by_alias=True) if isinstance(g, pydantic.BaseModel) else repr(g) for g in got]
+                if dumped != expected or not all(isinstance(g, pydantic.BaseModel) for g in got):
+                    failures.append({"clause": "generated_yield", "sig": "", "msg": f"{label}: yielded {dumped} expected {expected}"})
+                sub = [json.loads(x) for x in fake.sent if json.loads(x).get("type") == "subscribe"]
+                want_vars = {"step": 2} if opname == "counter" else None
+                if len(sub) != 1 or sub[0]["payload"].get("variables") != want_vars or sub[0]["payload"].get("operationName") != opname.capitalize():
+                    failures.append({"clause": "generated_subscribe", "sig": "", "msg": f"{label}: subscribe frames {sub}"})
+            nts.append(f"generated:{case['otel']}:{tracer}:{opname}:{'-'.join(kinds)}")
+    return {"failures": failures[:4], "units": units, "nt": nts, "features": ["generated_subscription"],
+            "sample": {"generated_subscription": True, "otel": case["otel"]}}
+
+
 def run_case(case, scratch):
+    if case["kind"] == "generated":
+        return run_generated(case, scratch)
     failures, nts, units = [], [], 0
     script = normalise([tuple(s) for s in case["script"]], case.get("after_complete", False))
     cfgs = list(range(len(CONFIGS))) if case.get("all_cfg") else [case["cfg"]]
